@@ -290,6 +290,7 @@ package gpbft
 //@     before[prescribed_round] (msg.Vote.Phase == CONVERGE_PHASE || msg.Vote.Phase == PREPARE_PHASE ==> msg.Justification.Vote.Round + 1 == msg.Vote.Round) && (msg.Vote.Phase == COMMIT_PHASE ==> msg.Justification.Vote.Round == msg.Vote.Round)
 //@     before[prescribed_value] expectedVoteValueKey == ite((msg.Vote.Phase == CONVERGE_PHASE || msg.Vote.Phase == PREPARE_PHASE) && msg.Justification.Vote.Phase == COMMIT_PHASE, res(Key, 1), ite(valueKey != nil, *valueKey, res(Key, 2)))
 //@          && (valueKey == nil ==> argOf(Key, 2, 0) == msg.Vote.Value) && arg(1) == msg.Justification
+//@     before[cache_key_binds_the_expected_value_key] len(arg(2)) == 1 && arg(2)[0] == expectedVoteValueKey[:]
 //@     before[a_complete_message_carries_the_justified_value_itself] valueKey == nil ==> res(Equal, 1) && argOf(Key, 3, 0) == msg.Justification.Vote.Value
 //@   at isAlreadyValidated 1
 //@     before[cache_lookup_is_keyed_by_instance_kind_encoding_and_expected_value] arg(1) == msg.Vote.Instance && arg(2) == res(justification, 1) && argOf(justification, 1, 0) == (valueKey != nil) && arg(3) == res(getCacheKey, 1, 0) && res(getCacheKey, 1, 1) == nil
@@ -342,7 +343,7 @@ package gpbft
 // message must still be relevant, bottom must be announced as bottom, and the justification must be for the value
 // the protocol prescribes for the step pair.
 //@ func (*cachingValidator).FullyValidateMessage
-//@   property C13
+//@   property C13 C05
 //@   modifies auto
 //@   maypanic
 //@   at return 11
